@@ -816,7 +816,20 @@ pub mod c20 {
                     add_bitmaps(&mut body, 1, "b1");
                 }
             }
-            return (srv.frame(&body, Wrap::FastPath { sec: 0, long: big == 4 || k % 2 == 0 }), stamps);
+            let mut frame = srv.frame(&body, Wrap::FastPath { sec: 0, long: big == 4 || k % 2 == 0 });
+            if big == 3 && k % 4 == 3 {
+                // now and then a slow-path PDU that asks nothing of the client (error info "none") instead of bitmaps, sent
+                // with another MCS data priority than the rest of the session (top, medium, low; unsegmented as always)
+                let (mut p2, sid) = {
+                    let st = srv.state.lock().unwrap();
+                    (st.profile.clone(), st.next_share_id)
+                };
+                p2.sdi_flags = [0x30u8, 0xB0, 0xF0][(k / 4) % 3];
+                // (a PDU of its own in the sequence, carrying no bitmap: the packing under test treats it like any other)
+                frame = proto::slow_path_frame(&p2, &proto::set_error_info(&p2, sid, 0)).v;
+                stamps.clear();
+            }
+            return (frame, stamps);
         }
         let large = big > 0 && big < 3 && k % 2 == 0;
         let nr = if large && big == 2 { 1 } else { 1 + k % 3 };
